@@ -375,6 +375,11 @@ def _amplification(opt: Any, params: list, cfg: dict) -> float:
                     gaps = (L[1:] - L[:-1]).abs()
                     g = float(gaps.min())
                     worst = max(worst, lmax / g if g > 0 else float("inf"))
+                    if cfg["precond"].get("method") == "qr":
+                        # orthogonal iteration Q <- qr(F Q): the trailing columns are determined up to u * cond(F); for a (nearly) rank-deficient
+                        # factor they are numerically arbitrary inside the (near) null space - a valid basis either way (C03), not one expected answer
+                        lmin = float(L.abs().min())
+                        worst = max(worst, lmax / lmin if lmin > 0 else float("inf"))
                 else:
                     e = cfg["epsilon"]
                     worst = max(worst, (lmax + e) / (max(float(L.min()), 0.0) + e))
